@@ -108,6 +108,31 @@ mod model {
                 Err(_) => Err(Error::from(ErrorKind::InvalidData)),
             }
         }
+
+        fn chain<R: Read>(self, next: R) -> Chain<Self, R>
+        where
+            Self: Sized,
+        {
+            Chain { first: self, second: next, done_first: false }
+        }
+    }
+
+    /// `Read::chain`: first reader until it reports end of input, then the second.
+    pub struct Chain<A, B> {
+        first: A,
+        second: B,
+        done_first: bool,
+    }
+    impl<A: Read, B: Read> Read for Chain<A, B> {
+        fn read(&mut self, buf: &mut [u8]) -> Result<usize> {
+            if !self.done_first {
+                match self.first.read(buf)? {
+                    0 if !buf.is_empty() => self.done_first = true,
+                    n => return Ok(n),
+                }
+            }
+            self.second.read(buf)
+        }
     }
 
     pub trait Write {
